@@ -1,0 +1,53 @@
+//go:build verif
+
+// Machine-checked contracts for package typeutil (comment-only file; compiled only
+// under the build tag "verif", contains no code). Consumed by /verif/govc.
+package typeutil
+
+// the hash is a deterministic function of the type (its consistency with
+// types.Identical is the subject of the HashSpec lemmas below)
+//@ func hash
+//@ prop C19
+//@ pure
+
+//@ func (*Map).Len
+//@ prop C19
+//@ readonly
+//@ nilok
+//@ ensures result == ite(m != nil, m.length, 0)
+
+//@ func (*Map).At
+//@ prop C19
+//@ readonly
+//@ nilok
+//@ requires key != nil
+//@ loop 0 invariant forall(j, 0, rangeidx + 1, !Match(Bkt(m, key), j, key))
+//@ ensures imp(m == nil || m.table == nil, result == nil)
+//@ ensures imp(m != nil && m.table != nil && !Has(Bkt(m, key), key), result == nil)
+//@ ensures imp(m != nil && m.table != nil && Has(Bkt(m, key), key), exists(i, 0, len(Bkt(m, key)), Match(Bkt(m, key), i, key) && result == Bkt(m, key)[i].value && forall(j, 0, i, !Match(Bkt(m, key), j, key))))
+
+//@ func (*Map).Set
+//@ prop C19
+//@ requires key != nil && imp(m.table != nil, BktWf(Bkt(m, key)))
+//@ assigns m.table, m.length, map(m.table), elems(Bkt(m, key))
+//@ loop 0 invariant forall(j, 0, rangeidx + 1, !Match(bucket, j, key))
+//@ loop 0 invariant hole == nil || exists(j, 0, rangeidx + 1, hole == eltaddr(bucket, j) && bucket[j].key == nil)
+//@ ensures Has(Bkt(m, key), key)
+//@ ensures exists(i, 0, len(Bkt(m, key)), Match(Bkt(m, key), i, key) && Bkt(m, key)[i].value == value)
+//@ ensures imp(old(m.table != nil && Has(Bkt(m, key), key)), m.length == old(m.length) && exists(i, 0, old(len(Bkt(m, key))), old(Match(Bkt(m, key), i, key)) && result == old(Bkt(m, key)[i].value)))
+//@ ensures imp(!old(m.table != nil && Has(Bkt(m, key), key)), m.length == old(m.length) + 1 && result == nil)
+//@ ensures imp(old(m.table) != nil, len(Bkt(m, key)) >= old(len(Bkt(m, key))) && forall(i, 0, old(len(Bkt(m, key))), imp(old(Bkt(m, key)[i].key != nil && !types.Identical(key, Bkt(m, key)[i].key)), Bkt(m, key)[i] == old(Bkt(m, key)[i]))))
+//@ ensures imp(old(m.table) != nil, forall(i, 0, len(Bkt(m, key)), imp(Bkt(m, key)[i].key != nil, Bkt(m, key)[i].key == key || (i < old(len(Bkt(m, key))) && Bkt(m, key)[i].key == old(Bkt(m, key)[i].key)))))
+//@ ensures BktWf(Bkt(m, key))
+
+//@ func (*Map).Delete
+//@ prop C19
+//@ nilok
+//@ requires key != nil
+//@ assigns m.length, elems(Bkt(m, key))
+//@ loop 0 invariant forall(j, 0, rangeidx + 1, !Match(bucket, j, key))
+//@ ensures result == old(m != nil && m.table != nil && Has(Bkt(m, key), key))
+//@ ensures imp(result, m.length == old(m.length) - 1)
+//@ ensures imp(!result && m != nil, m.length == old(m.length))
+//@ ensures imp(result, exists(i, 0, len(Bkt(m, key)), old(Match(Bkt(m, key), i, key)) && Bkt(m, key)[i].key == nil && Bkt(m, key)[i].value == nil && forall(j, 0, len(Bkt(m, key)), imp(j != i, Bkt(m, key)[j] == old(Bkt(m, key)[j])))))
+//@ ensures imp(result && old(BktWf(Bkt(m, key))), !Has(Bkt(m, key), key))
